@@ -51,7 +51,9 @@ FIXED = [
     ("C02", "4a66374", "IsotensionCriteria subtracted the pressure from all nine stress components: hydrostatic stress != isobaric under shear",
      ["C02|wrong_decision|rule=isotension_hydrostatic|driver=Isotension|case=accepted_but_rule_rejects",
       "C02|wrong_decision|rule=isotension|driver=Isotension|case=rejected_but_rule_accepts"]),
-    ("C01", "9e4ef1c", "Rotation passed radians to ASE's degree-based euler_rotate and drew Euler angles uniformly: biased orientations", []),
+    ("C01", "9e4ef1c", "Rotation passed radians to ASE's degree-based euler_rotate and drew Euler angles uniformly: biased orientations",
+     ["C01|ensemble_average_wrong|row=dipole|observable=cos_theta|proposal=Rotation",
+      "C01|ensemble_average_wrong|row=gc_ideal_gas|observable=cos2_theta|proposal=diatomic+Ball"]),
     ("C05", "95006bb", "DisplacementMove.default_label = 0 ignored for inserted atoms",
      ["C05|default_label_not_honoured|labels_of=DisplacementMove|default=0|driver=GrandCanonical|move=exch"]),
     ("C05", "30cc82f", "labels appended once per occurrence of a repeated move object (move*n, same object in two entries): labels lose alignment",
